@@ -254,6 +254,23 @@ type c09Env struct {
 	cfg   *rtr.Cfg
 	key   []byte
 	multi bool
+	// the router's own SCION host address (the source of every reply): type/length nibble and bytes
+	rtrTL   uint8
+	rtrHost []byte
+	// address kinds of the offender, set by the sweeps before build (an env belongs to one job = one goroutine):
+	// srcSVC: service address as source host; dstKind 0: as generated (IPv4), 1: IPv6, 2: service address
+	srcSVC  bool
+	dstKind int
+}
+
+// c09RouterAddrs: the internal (SCION host) addresses the router under test is configured with.
+var c09RouterAddrs = []struct {
+	name, internal string
+	tl             uint8
+	host           []byte
+}{
+	{"v4", "10.0.0.1:30042", 0, []byte{10, 0, 0, 1}},
+	{"v6", "[fd00::1]:30042", 3, []byte{0xfd, 0, 0, 0, 0, 0, 0, 0, 0, 0, 0, 0, 0, 0, 0, 1}},
 }
 
 func (e *c09Env) lt(id uint16) topology.LinkType {
@@ -610,6 +627,9 @@ type c09Off struct {
 	srcIA  uint64
 	srcTL  uint8
 	srcRaw []byte
+	// the router's own host address (expected source of the reply)
+	rtrTL   uint8
+	rtrHost []byte
 	// for the recorded (not judged) expectation about the reply's path state
 	expCurrHF int
 }
@@ -732,8 +752,7 @@ func (k *c09Run) check(rt *rtr.Router, o *c09Off) {
 	if p.dstIA != o.srcIA || p.dtdl != o.srcTL || !bytes.Equal(p.dst, o.srcRaw) {
 		k.viol("dst-not-offender-source", o, fmt.Sprintf("dstIA=%x dt/dl=%x dst=%x", p.dstIA, p.dtdl, p.dst))
 	}
-	rh := netip.MustParseAddr(c09RouterHost).As4()
-	if p.srcIA != uint64(rt.Cfg.IA) || p.stsl != 0 || !bytes.Equal(p.src, rh[:]) {
+	if p.srcIA != uint64(rt.Cfg.IA) || p.stsl != o.rtrTL || !bytes.Equal(p.src, o.rtrHost) {
 		k.viol("src-not-local-router", o, fmt.Sprintf("srcIA=%x st/sl=%x src=%x", p.srcIA, p.stsl, p.src))
 	}
 	// path: the offender's hop fields in reverse order
@@ -1027,6 +1046,7 @@ func c09Stretch(c rtr.Case, pre, post int) (rtr.Case, bool) {
 
 type c09Job struct {
 	multi, auth, bfd bool
+	rtrAddr          int // index into c09RouterAddrs
 	params           int
 	mode             string // "causes", "types", "sizes"
 	key              []byte
@@ -1044,6 +1064,19 @@ func (k *c09Run) build(e *c09Env, c *rtr.Case, cause *c09Cause, epic bool, ext i
 			p.Src = rtr.V6("2001:db8::1:1")
 		}
 	}
+	if e.srcSVC {
+		p.Src = rtr.SVC(uint16(addr.SvcCS))
+	}
+	switch e.dstKind { // causes that are about the destination host overwrite this again
+	case 1:
+		if p.DstIA == uint64(e.cfg.IA) {
+			p.Dst = rtr.V6("fd00::200")
+		} else {
+			p.Dst = rtr.V6("2001:db8::2:2")
+		}
+	case 2:
+		p.Dst = rtr.SVC(uint16(addr.SvcCS))
+	}
 	extVariant(&p, ext)
 	w, patch, ok := cause.apply(e, c, &p, &in)
 	if !ok {
@@ -1059,7 +1092,7 @@ func (k *c09Run) build(e *c09Env, c *rtr.Case, cause *c09Cause, epic bool, ext i
 	if patch != nil {
 		raw = patch(raw, lay)
 	}
-	o := &c09Off{cause: cause.name, raw: raw, lay: lay, in: in, want: w, l4: l4, auth: auth}
+	o := &c09Off{cause: cause.name, raw: raw, lay: lay, in: in, want: w, l4: l4, auth: auth, rtrTL: e.rtrTL, rtrHost: e.rtrHost}
 	o.hasL4 = len(raw) >= lay.L4Off+1
 	o.srcIA = binary.BigEndian.Uint64(raw[20:])
 	o.srcTL = raw[9] & 15
@@ -1080,8 +1113,8 @@ func (k *c09Run) build(e *c09Env, c *rtr.Case, cause *c09Cause, epic bool, ext i
 	default:
 		o.expCurrHF = nh - 1 - h
 	}
-	o.key = fmt.Sprintf("%s|%s|epic=%v ext=%d l4=%s v6=%v auth=%v multi=%v key=%x tc=%x %s", c.Name, cause.name, epic, ext, l4.name, srcV6, auth,
-		e.multi, e.key[0], tc, tag)
+	o.key = fmt.Sprintf("%s|%s|epic=%v ext=%d l4=%s v6=%v auth=%v multi=%v key=%x tc=%x %s router-addr-len=%d src-svc=%v dst-kind=%d", c.Name, cause.name,
+		epic, ext, l4.name, srcV6, auth, e.multi, e.key[0], tc, tag, len(e.rtrHost), e.srcSVC, e.dstKind)
 	return o, true
 }
 
@@ -1106,22 +1139,31 @@ func TestC09(t *testing.T) {
 			{TS: nowS - 1000, Exp: 255, UseExpV: true, ExpV: [2]uint8{255, 0}},
 		}
 		var jobs []c09Job
-		for _, multi := range []bool{false, true} {
-			for _, auth := range []bool{false, true} {
-				for pi := range prm {
-					jobs = append(jobs, c09Job{multi: multi, auth: auth, params: pi, mode: "causes"})
-				}
-				jobs = append(jobs, c09Job{multi: multi, auth: auth, bfd: true, mode: "causes"})
-				if mc.Thorough() { // a second forwarding key
-					jobs = append(jobs, c09Job{multi: multi, auth: auth, mode: "causes", key: rtr.KeyB})
-				}
-				for _, bfd := range []bool{false, true} {
-					jobs = append(jobs, c09Job{multi: multi, auth: auth, bfd: bfd, mode: "types"})
-					for pi := 0; pi < 2; pi++ {
-						if bfd && pi > 0 {
-							continue
+		for ra := range c09RouterAddrs {
+			for _, multi := range []bool{false, true} {
+				for _, auth := range []bool{false, true} {
+					for pi := range prm {
+						if ra > 0 && !mc.Thorough() && (multi || pi == 2) {
+							continue // quick: the cause sweep with the second router address on the single-router AS
 						}
-						jobs = append(jobs, c09Job{multi: multi, auth: auth, bfd: bfd, params: pi, mode: "sizes"})
+						jobs = append(jobs, c09Job{multi: multi, auth: auth, params: pi, mode: "causes", rtrAddr: ra})
+					}
+					if ra == 0 || mc.Thorough() {
+						jobs = append(jobs, c09Job{multi: multi, auth: auth, bfd: true, mode: "causes", rtrAddr: ra})
+					}
+					if mc.Thorough() { // a second forwarding key
+						jobs = append(jobs, c09Job{multi: multi, auth: auth, mode: "causes", key: rtr.KeyB, rtrAddr: ra})
+					}
+					for _, bfd := range []bool{false, true} {
+						if ra == 0 || mc.Thorough() {
+							jobs = append(jobs, c09Job{multi: multi, auth: auth, bfd: bfd, mode: "types", rtrAddr: ra})
+						}
+						for pi := 0; pi < 2; pi++ {
+							if bfd && pi > 0 {
+								continue
+							}
+							jobs = append(jobs, c09Job{multi: multi, auth: auth, bfd: bfd, params: pi, mode: "sizes", rtrAddr: ra})
+						}
 					}
 				}
 			}
@@ -1135,13 +1177,14 @@ func TestC09(t *testing.T) {
 			}
 			cfg := rtr.StdCfg(j.multi, j.key)
 			cfg.AuthSCMP = j.auth
+			cfg.InternalAddr = c09RouterAddrs[j.rtrAddr].internal
 			if j.bfd {
 				for i := range cfg.Ifs {
 					cfg.Ifs[i].BFD = true
 				}
 			}
 			rt := rtr.MustBuild(cfg)
-			e := &c09Env{cfg: &cfg, key: j.key, multi: j.multi}
+			e := &c09Env{cfg: &cfg, key: j.key, multi: j.multi, rtrTL: c09RouterAddrs[j.rtrAddr].tl, rtrHost: c09RouterAddrs[j.rtrAddr].host}
 			cases := rtr.CasesP(&cfg, j.key, prm[j.params])
 			var cs []*c09Cause
 			for i := range causes {
@@ -1180,9 +1223,12 @@ func TestC09(t *testing.T) {
 									if (ci+ext+li)%4 == 3 {
 										tc = 0xb9
 									}
+									// offender address kinds rotate: source IPv4 / IPv6 / service, destination IPv4 / IPv6 / service
+									e.dstKind, e.srcSVC = (ci+2*ext+li+pt)%3, (ci+li)%5 == 4
 									if o, ok := k.build(e, c, cause, pt == 1, ext, l4, (ci+li)%3 == 1, j.auth, tc, ""); ok {
 										run(o)
 									}
+									e.dstKind, e.srcSVC = 0, false
 								}
 							}
 						}
@@ -1249,6 +1295,7 @@ func TestC09(t *testing.T) {
 						}
 						seen[id]++
 						base := c.Pkt.NumHops()
+						rot := 0
 						for total := base; total <= 64; total++ {
 							if !mc.Thorough() && total > base+2 && total < 62 && total%3 != 0 && (total < 34 || total > 42) {
 								continue // quick: every third hop count, all of them around the 512-byte headroom switch and at the ends
@@ -1264,18 +1311,35 @@ func TestC09(t *testing.T) {
 							if !ok {
 								continue
 							}
-							for _, v6 := range []bool{false, true} {
+							// address kinds: offender source {IPv4, IPv6, service} x offender destination {IPv4, IPv6, service}
+							// (x the router's own address kind, a job parameter). quick: per hop count all three source
+							// kinds with one destination kind, rotating with the hop count; thorough: all nine.
+							rot++
+							firstCombo := true
+							for ak := 0; ak < 9; ak++ {
+								srcKind, dstKind := ak/3, ak%3
+								if !mc.Thorough() && (dstKind+rot)%3 != 0 {
+									continue
+								}
+								first := firstCombo
+								firstCombo = false
+								v6 := srcKind == 1
+								e.srcSVC, e.dstKind = srcKind == 2, dstKind
 								for _, ext := range []int{0, 3} {
 									for _, epic := range []bool{false, true} {
-										if epic && (ext != 0 || v6) {
+										if epic && (ext != 0 || !first) {
 											continue
 										}
-										// header bytes of the reply, from the specification
+										if ext != 0 && !first && !mc.Thorough() {
+											continue
+										}
+										// header bytes of the reply, from the specification: common header, address header with the
+										// OFFENDER'S SOURCE as destination and the ROUTER'S address as source, path, SCMP header
 										srcLen := 4
 										if v6 {
 											srcLen = 16
 										}
-										hdrs := 12 + 16 + srcLen + 4 + 4 + 8*len(sc.Pkt.Segs) + 12*total +
+										hdrs := 12 + 16 + srcLen + len(e.rtrHost) + 4 + 8*len(sc.Pkt.Segs) + 12*total +
 											map[int]int{1: 8, 4: 8, 5: 20, 6: 28}[probe.want.typ]
 										if j.auth {
 											hdrs += 32
@@ -1317,6 +1381,7 @@ func TestC09(t *testing.T) {
 									}
 								}
 							}
+							e.srcSVC, e.dstKind = false, 0
 						}
 					}
 				}
